@@ -73,6 +73,17 @@ pub fn sequences_json(cfg: &kanata_parser::cfg::Cfg) -> Result<(Vec<Value>, u64)
     Ok((keys, bad))
 }
 
+/// the trie for the parser dump (binding A); an unreadable Debug rendering is reported as a string
+pub fn sequences_for_dump(cfg: &kanata_parser::cfg::Cfg) -> Value {
+    match sequences_json(cfg) {
+        Ok((keys, _)) => json!(keys
+            .iter()
+            .map(|e| json!({"k": e["k"], "x": e["x"], "y": e["v"]}))
+            .collect::<Vec<_>>()),
+        Err(e) => json!(format!("unreadable: {e}")),
+    }
+}
+
 pub fn cmd(args: &[String]) -> i32 {
     let uni: Value = serde_json::from_reader(std::fs::File::open(&args[0]).expect("universe")).expect("json");
     let defs: Vec<String> = uni["defs"]
